@@ -55,7 +55,10 @@ Definition bank_of (l : list (Z * lcoins)) (m : Z) (mod0 : lcoins) : bank :=
 Section Run.
 (* model variants selected by the harness probes (used by the correspondence only) *)
 Variable dynguard : bool.
+Variable payout_safe : bool.
+Variable quorum_checked : bool.
 Variable gate_exact : bool.
+Variable ubi_bigint : bool.
 Variable remove_atomic : bool.
 Variable actors : list (Z * list Z).
 Variable U : list Z.
@@ -86,7 +89,7 @@ Fixpoint sp_corr (accts : list Z) (s : sstate) (h : list (Z * sp_op * sobs)) : b
   match h with
   | [] => true
   | (now, op, o) :: r =>
-      let res := sp_apply dynguard actors U now op s in
+      let res := sp_apply dynguard payout_safe quorum_checked actors U now op s in
       let s' := match res with Ok s' => s' | _ => s end in
       sp_obs_matches accts s s' (res_of res) o && sp_corr accts s' r
   end.
@@ -101,7 +104,7 @@ Fixpoint ubi_corr (hardcap : Z) (s : ustate) (h : list (Z * ubi_op * uobs)) : bo
   match h with
   | [] => true
   | (now, op, o) :: r =>
-      let res := ubi_apply gate_exact hardcap now op s in
+      let res := ubi_apply gate_exact ubi_bigint hardcap now op s in
       let s' := match res with Ok (s', _) => s' | _ => s end in
       ubi_obs_matches s' (res_of res) o && ubi_corr hardcap s' r
   end.
@@ -212,8 +215,8 @@ Definition with_expiry (T : terms) (x : Z) : terms :=
 (* ghost record after an accepted operation *)
 Definition sp_ghost_terms (S : sspec) (post : list (Z * opool)) (op : sp_op) : list (Z * terms) :=
   match op with
-  | OCreate p T => zset p T (ss_terms S)
-  | OUpdate p T => zset p (with_expiry T (match zget p (ss_terms S) with Some T0 => t_expiry T0 | None => 0 end)) (ss_terms S)
+  | OCreate p T | OBadQuorum false p T => zset p T (ss_terms S)
+  | OUpdate p T | OBadQuorum true p T => zset p (with_expiry T (match zget p (ss_terms S) with Some T0 => t_expiry T0 | None => 0 end)) (ss_terms S)
   | OEndBlock =>     (* dynamic pools: the end blocker recalculates the rates; nothing else *)
       map (fun e => if t_dyn (snd e) then
                       match zget (fst e) post with Some ob => (fst e, with_rates (snd e) (t_rates (op_terms ob))) | None => e end
@@ -222,7 +225,7 @@ Definition sp_ghost_terms (S : sspec) (post : list (Z * opool)) (op : sp_op) : l
   end.
 Definition sp_ghost_book (accts : list Z) (S : sspec) (op : sp_op) (o : sobs) : list (Z * fcoins) :=
   match op with
-  | OCreate p _ => if zhas p (ss_book S) then ss_book S else zset p czero (ss_book S)
+  | OCreate p _ | OBadQuorum false p _ => if zhas p (ss_book S) then ss_book S else zset p czero (ss_book S)
   | ODeposit _ p amt => zset p (cadd (fget p (ss_book S)) (cof amt)) (ss_book S)
   | OClaim a p => zset p (csub (fget p (ss_book S)) (delta_of o a)) (ss_book S)
   | ODistribute p | OWithdraw p _ _ => zset p (csub (fget p (ss_book S)) (sum_deltas o)) (ss_book S)
